@@ -3,4 +3,4 @@
 Require Extraction.
 Require Import ExtrOcamlBasic.
 From Z80V Require Import Gen.Exec Spec.Exec.
-Extraction "model.ml" Gen.Exec.Step Spec.Exec.step_instr GPR_GetFlag GPR_SetFlag GPR_ResetFlag Register_SetU16 Register_U16 mk_Unspec.
+Extraction "model.ml" Gen.Exec.Step Spec.Exec.step_instr Spec.Exec.spec_step GPR_GetFlag GPR_SetFlag GPR_ResetFlag Register_SetU16 Register_U16 mk_Unspec.
